@@ -44,7 +44,7 @@ from vf.core import Clause, HarnessError, LibError, Violation, sut
 PROPERTY_ID = "C19"
 RULE = ("Histories over {setForwardData, deleteForwardingRule, setDataSink, setDataSource, getData, sendData, "
         "spin(k), open/close}: (a) every sequence of length <=4 (quick) / <=5 (thorough) over a fixed alphabet of "
-        "31 concrete operations on a 2-endpoint hub, (b) every operation of that alphabet from every reachable "
+        "29 concrete operations on a 2-endpoint hub, (b) every operation of a 36-operation superset from every reachable "
         "rule-table state (model-side BFS, shortest path replayed), (c) Hypothesis op-lists to depth 60 on 1..4 "
         "endpoints with a no-data fault drawn at every receive position, (d) the same interpreter on two real "
         "UDPObject endpoints on 127.0.0.1. Non-trivial: a message is received after >=1 successful registration "
@@ -524,6 +524,7 @@ def execute(n_ep, opens, ops, rig):
                 kind = "recv"
             del log[:]
             spin_k = None
+            fed_any = False
             if kind == "fwd" or kind == "del":
                 a, b = op[1], op[2]
                 changed = model.set_forward(a, b) if kind == "fwd" else model.del_forward(a, b)
@@ -559,6 +560,7 @@ def execute(n_ep, opens, ops, rig):
                     msg_count += 1
                     fed = _payload(op[2], msg_count)
                     rig.feed(a, fed)
+                    fed_any = True
                 else:
                     flags |= F_UNKNOWN
                 r = sut(hub.getData, a)
@@ -581,6 +583,7 @@ def execute(n_ep, opens, ops, rig):
                     for j, n in enumerate(names):
                         msg_count += 1
                         rig.feed(n, _payload(row[j] if j < len(row) else "none", msg_count))
+                        fed_any = True
                 sut(hub.spin, spin_k)
             elif kind == "send":
                 a = op[1]
@@ -594,39 +597,34 @@ def execute(n_ep, opens, ops, rig):
                                     "nothing else: %s" % (idx, op, a, m, _diff(got, want)))
                 if a not in eps:
                     flags |= F_UNKNOWN
-                rig.end_op(idx, op, log)
+                if not rig.synchronous:
+                    rig.end_op(idx, op, log)
                 continue
-            elif kind == "open":
-                a = op[1]
-                if a in eps:
-                    rig.open_ep(hub, a)
-                    model.open[a] = True
+            elif kind in ("open", "close", "openall", "closeall"):
+                # The property says nothing about what open/close return; what matters afterwards is whether
+                # each endpoint is open (a closed port yields no data), and that is read off the endpoints.
+                if kind == "open":
+                    if op[1] in eps:
+                        rig.open_ep(hub, op[1])
+                    else:
+                        sut(hub.openCom, op[1])
+                        flags |= F_UNKNOWN
+                elif kind == "close":
+                    sut(hub.closeCom, op[1])
+                    if op[1] not in eps:
+                        flags |= F_UNKNOWN
+                elif kind == "openall":
+                    sut(hub.openAll)
                 else:
-                    sut(hub.openCom, a)
-                    flags |= F_UNKNOWN
-            elif kind == "close":
-                a = op[1]
-                sut(hub.closeCom, a)
-                if a in eps:
-                    model.open[a] = False
-                else:
-                    flags |= F_UNKNOWN
-            elif kind == "openall":
-                sut(hub.openAll)
+                    sut(hub.closeAll)
                 for n in names:
-                    model.open[n] = True
-            elif kind == "closeall":
-                sut(hub.closeAll)
-                for n in names:
-                    model.open[n] = False
+                    model.open[n] = bool(eps[n].open)
             else:
                 raise HarnessError("unknown op %r" % (op,))
             if log or spin_k:
                 flags = _check_events(model, log, spin_k, idx, op, flags)
-            for n in names:
-                if bool(eps[n].open) != model.open[n]:
-                    raise HarnessError("open flag of %s out of step with the model after %r" % (n, op))
-            rig.end_op(idx, op, log)
+            if fed_any or not rig.synchronous:
+                rig.end_op(idx, op, log)
         return flags, model
     finally:
         rig.teardown()
@@ -647,13 +645,19 @@ ALPHABET = [
     ["fwd", "A", "B"], ["fwd", "B", "A"], ["fwd", "A", "A"], ["fwd", "A", "X"], ["fwd", "X", "B"],
     ["del", "A", "B"], ["del", "B", "A"], ["del", "A", "A"], ["del", "A", "X"], ["del", "X", "B"],
     ["sink", "A", 0], ["sink", "A", 1], ["sink", "B", 0], ["sink", "X", 0], ["sink", "A", None],
-    ["src", "A", 0], ["src", "B", 0], ["src", "B", 1], ["src", "X", 0], ["src", "A", None],
+    ["src", "A", 0], ["src", "B", 0], ["src", "B", 1], ["src", "X", 0],
     ["recv", "A", "msg"], ["recv", "A", "none"], ["recv", "B", "msg"], ["recv", "B", "none"], ["recv", "X", "msg"],
-    ["send", "A"], ["send", "X"],
+    ["send", "A"],
     ["spin", 1, [["msg", "msg"]]], ["spin", 1, []], ["spin", 2, [["msg", "none"], ["none", "msg"]]],
     ["close", "A"],
 ]
-NA = len(ALPHABET)
+NA = len(ALPHABET)          # 29: 29 + 29^2 + ... + 29^5 = 21.2 M histories
+# The state-graph clause is cheap (states x operations), so it applies a superset of the alphabet.
+GRAPH_ALPHABET = ALPHABET + [
+    ["send", "X"], ["src", "A", None], ["open", "A"], ["recv", "A", "empty"], ["recv", "B", "empty"],
+    ["spin", 3, [["none", "msg"], ["msg", "msg"], ["empty", "none"]]], ["spin", 0, []],
+]
+NG = len(GRAPH_ALPHABET)
 DEPTH = {"quick": 4, "thorough": 5}
 
 
@@ -755,7 +759,7 @@ def _model_step(model, op):
 
 
 def _graph():
-    """BFS over model states reachable with ALPHABET on 2 endpoints -> list of (shortest path, op index).
+    """BFS over model states reachable with GRAPH_ALPHABET on 2 endpoints -> list of (shortest path, op index).
 
     The state includes 'a forwarding rule was ever set for this name' so that tables that were emptied
     again are explored separately from tables never used."""
@@ -766,7 +770,7 @@ def _graph():
     def replay(path):
         m = Model(names, [True, True])
         for d in path:
-            _model_step(m, ALPHABET[d])
+            _model_step(m, GRAPH_ALPHABET[d])
         return m
 
     seen = {replay(()).key(): ()}
@@ -774,14 +778,14 @@ def _graph():
     q = collections.deque([()])
     while q:
         path = q.popleft()
-        for d in range(NA):
+        for d in range(NG):
             p2 = path + (d,)
             k = replay(p2).key()
             if k not in seen:
                 seen[k] = p2
                 order.append(p2)
                 q.append(p2)
-    _GRAPH["pairs"] = [(p, d) for p in order for d in range(NA)]
+    _GRAPH["pairs"] = [(p, d) for p in order for d in range(NG)]
     _GRAPH["states"] = len(order)
     _GRAPH["maxdepth"] = max(len(p) for p in order)
     return _GRAPH["pairs"]
@@ -797,7 +801,7 @@ def probe_ops(n_ep):
 
 def _graph_case(i, tier=None):
     p, d = _graph()[i]
-    return {"n_ep": 2, "open": [True, True], "ops": [ALPHABET[x] for x in p] + [ALPHABET[d]] + probe_ops(2)}
+    return {"n_ep": 2, "open": [True, True], "ops": [GRAPH_ALPHABET[x] for x in p] + [GRAPH_ALPHABET[d]] + probe_ops(2)}
 
 
 def c_state_graph(case, ctx):
@@ -923,7 +927,7 @@ def c_udp(case, ctx):
 CLAUSES = [
     Clause("enum_short_histories", c_history, kind="enum", size=_enum_size, case_at=_enum_case,
            run_range=enum_run_range,
-           doc="every history of length <=4 (quick) / <=5 (thorough) over the 31-operation alphabet, 2 doubles"),
+           doc="every history of length <=4 (quick) / <=5 (thorough) over the 29-operation alphabet, 2 doubles"),
     Clause("state_graph_every_op", c_state_graph, kind="enum", size=lambda tier: len(_graph()),
            case_at=_graph_case,
            doc="every alphabet operation applied in every reachable rule-table state (shortest path replayed), "
